@@ -28,47 +28,21 @@ def r_features(idx, rep, rule="R-FEATURES"):
         for f in m.functions.values():
             pm = parent_map(f.node)
             body = list(iter_stmts(f.node.body))
-            # ---- triangle edges:  i0 = 2; i1 = 0; while i1 < 3: ... X[i0], X[i1] ...; i0 = i1; i1 += 1
-            for w in [n for n in ast.walk(f.node) if isinstance(n, ast.While)]:
-                t = ncmp(w.test)
-                if not (t and t[0] in ("<", "<=") and isinstance(t[1], ast.Name) and isinstance(const(t[2]), int)):
+            # ---- triangle edges: however they are enumerated (i0/i1 wrap-around while loop, `for i1 in range(3)` with a carried i0, a helper that
+            #      returns the three vertex pairs), the enumeration is SIMULATED on its integer index state and must visit {2,0}, {0,1}, {1,2}
+            for w in [n for n in ast.walk(f.node) if isinstance(n, (ast.While, ast.For))]:
+                got = _edge_enumeration(idx, f, w, pm)
+                if got is None:
                     continue
-                i1 = t[1].id
-                # an edge loop indexes one array with the loop index and a companion index
-                idxnames = {}
-                for n in ast.walk(w):
-                    if isinstance(n, ast.Subscript) and isinstance(n.slice, ast.Name):
-                        idxnames.setdefault(u(n.value), set()).add(n.slice.id)
-                comps = {x for names in idxnames.values() if i1 in names for x in names if x != i1}
-                if len(comps) != 1:
-                    continue
-                i0 = comps.pop()
-                comp = [st for st in w.body if isinstance(st, ast.Assign) and isinstance(st.targets[0], ast.Name) and st.targets[0].id == i0 and u(st.value) == i1]
-                bound_ok = t[0] == "<" and const(t[2]) == 3
+                arr, pairs, how = got
                 n_tri += 1
-                key = "%s|triangle edges loop@%d" % (f.key, sum(1 for x in ast.walk(f.node) if isinstance(x, ast.While) and x.lineno <= w.lineno))
+                key = "%s|triangle edges loop@%d" % (f.key, sum(1 for x in ast.walk(f.node) if isinstance(x, (ast.While, ast.For)) and x.lineno <= w.lineno))
                 where = "%s:%d" % (m.relpath, w.lineno)
-                blk = None
-                par = pm.get(w)
-                for fld in ("body", "orelse"):
-                    b = getattr(par, fld, None)
-                    if isinstance(b, list) and w in b:
-                        blk = b
-                before = blk[:blk.index(w)] if blk else []
-                init0 = [st for st in before if isinstance(st, ast.Assign) and u(st.targets[0]) == i0]
-                init1 = [st for st in before if isinstance(st, ast.Assign) and u(st.targets[0]) == i1]
-                inc = [st for st in w.body if isinstance(st, ast.AugAssign) and u(st.target) == i1 and isinstance(st.op, ast.Add) and const(st.value) == 1]
-                ok = bound_ok and bool(comp) and bool(init0) and const(init0[-1].value) == 2 and bool(init1) and const(init1[-1].value) == 0 and len(inc) == 1 \
-                    and w.body.index(comp[0]) < w.body.index(inc[0])
-                used = set()
-                for n in ast.walk(w):
-                    if isinstance(n, ast.Subscript) and isinstance(n.slice, ast.Name) and n.slice.id in (i0, i1):
-                        used.add((u(n.value), n.slice.id))
-                arrs = {a for a, _ in used}
-                pair_ok = any({(a, i0), (a, i1)} <= used for a in arrs)
-                rep.check(ok and pair_ok, rule, key, where,
-                          "the edge loop must start with (%s, %s) = (2, 0), use vertices [%s] and [%s] of one triangle, then set %s = %s and %s += 1 up to 3: "
-                          "otherwise an edge of the triangle is never a candidate" % (i0, i1, i0, i1, i0, i1, i1), "edges (2,0) (0,1) (1,2)")
+                want = {frozenset((2, 0)), frozenset((0, 1)), frozenset((1, 2))}
+                have = {frozenset(p_) for p_ in pairs}
+                rep.check(have == want and len(pairs) == 3, rule, key, where,
+                          "the edge enumeration over `%s` (%s) visits the vertex pairs %s; a triangle has the edges (2,0) (0,1) (1,2): otherwise an edge of the "
+                          "triangle is never a candidate (or one is tested twice instead of another)" % (arr, how, pairs), "edges %s" % pairs)
                 _early_exits(rep, rule, f, w, pm, key)
             # ---- rectangle edges: for i1 in range(2): for i0 in range(2): convert_rectangle_to_segment(c, ext, i0, i1)
             for c in calls(f.node, "convert_rectangle_to_segment"):
@@ -128,6 +102,106 @@ def r_features(idx, rep, rule="R-FEATURES"):
     rep.check(ok, rule, f.key + "|all rectangle vertices", f.where, "every vertex of the rectangle must be tested against the box")
     if n_tri < 4 or n_rect < 4 or n_box < 1:
         rep.error("R-FEATURES: expected >= 4 triangle-edge loops, >= 4 rectangle-edge sites and 1 box-face site; found %d / %d / %d" % (n_tri, n_rect, n_box))
+
+
+def _edge_enumeration(idx, f, loop, pm):
+    """(array text, [(i, j) vertex index pairs in visiting order], description) when the loop enumerates pairs of rows of ONE 3-row array; else None"""
+    # (B) for a, b in helper(X): helper returns a literal of pairs, each element resolving to <param>[k]
+    if isinstance(loop, ast.For) and isinstance(loop.iter, ast.Call) and isinstance(loop.target, ast.Tuple) and len(loop.target.elts) == 2:
+        callee = idx.resolve_call(f.module, loop.iter, None)
+        fn = getattr(callee, "node", None)
+        if isinstance(fn, ast.FunctionDef) and len(loop.iter.args) == 1:
+            rets = [st for st in ast.walk(fn) if isinstance(st, ast.Return) and isinstance(st.value, (ast.Tuple, ast.List))]
+            if len(rets) == 1:
+                par = fn.args.args[0].arg
+                defs = {}
+                for st in fn.body:
+                    if isinstance(st, ast.Assign):
+                        tg, val = st.targets[0], st.value
+                        if isinstance(tg, ast.Tuple) and isinstance(val, ast.Tuple) and len(tg.elts) == len(val.elts):
+                            for t_, v_ in zip(tg.elts, val.elts):
+                                defs[u(t_)] = v_
+                        elif isinstance(tg, ast.Name):
+                            defs[tg.id] = val
+
+                def row(e):
+                    e = defs.get(u(e), e) if isinstance(e, ast.Name) else e
+                    if isinstance(e, ast.Subscript) and u(e.value) == par and isinstance(const(e.slice), int):
+                        return const(e.slice)
+                    return None
+                pairs = []
+                for el in rets[0].value.elts:
+                    if isinstance(el, (ast.Tuple, ast.List)) and len(el.elts) == 2:
+                        pairs.append((row(el.elts[0]), row(el.elts[1])))
+                if pairs and all(p_[0] is not None and p_[1] is not None for p_ in pairs):
+                    return u(loop.iter.args[0]), pairs, "pairs returned by %s" % callee.name
+        return None
+    # (A) index-state loops: simulate the integer variables
+    state = {}
+    blk = None
+    par = pm.get(loop)
+    for fld in ("body", "orelse"):
+        b = getattr(par, fld, None)
+        if isinstance(b, list) and loop in b:
+            blk = b
+    for st in (blk[:blk.index(loop)] if blk else []):
+        if isinstance(st, ast.Assign) and len(st.targets) == 1 and isinstance(st.targets[0], ast.Name) and isinstance(const(st.value), int):
+            state[st.targets[0].id] = const(st.value)
+    idxnames = {}
+    for n in ast.walk(loop):
+        if isinstance(n, ast.Subscript) and isinstance(n.slice, ast.Name) and isinstance(n.ctx, ast.Load):
+            idxnames.setdefault(u(n.value), set()).add(n.slice.id)
+    cands = [(a_, names) for a_, names in idxnames.items() if len(names) == 2]
+    if len(cands) != 1:
+        return None
+    arr, names = cands[0]
+    if isinstance(loop, ast.For):
+        if not (isinstance(loop.iter, ast.Call) and call_name(loop.iter) == "range" and len(loop.iter.args) == 1 and isinstance(const(loop.iter.args[0]), int)
+                and isinstance(loop.target, ast.Name) and loop.target.id in names):
+            return None
+        lv, n_iter = loop.target.id, const(loop.iter.args[0])
+        other = next(iter(names - {lv}))
+        if other not in state or n_iter > 8:
+            return None
+    else:
+        t = ncmp(loop.test)
+        if not (t and t[0] in ("<", "<=") and isinstance(t[1], ast.Name) and t[1].id in names and isinstance(const(t[2]), int)):
+            return None
+        lv = t[1].id
+        if not names <= set(state):
+            return None
+    order = sorted(names, key=lambda x: 0 if x != lv else 1)      # (companion, loop variable): start vertex, end vertex as used by the callers
+    first = None
+    for n in ast.walk(loop):
+        if isinstance(n, ast.Subscript) and isinstance(n.slice, ast.Name) and n.slice.id in names and u(n.value) == arr:
+            first = n.slice.id if first is None else first
+    pairs = []
+    it = 0
+    while it < 8:
+        if isinstance(loop, ast.For):
+            if it >= n_iter:
+                break
+            state[lv] = it
+        else:
+            op, _, bnd = ncmp(loop.test)
+            if not (state[lv] < const(bnd) if op == "<" else state[lv] <= const(bnd)):
+                break
+        pairs.append((state[order[0]], state[order[1]]))
+        for st in loop.body:
+            if isinstance(st, ast.Assign) and len(st.targets) == 1 and isinstance(st.targets[0], ast.Name) and st.targets[0].id in names:
+                v = st.value
+                if isinstance(v, ast.Name) and v.id in state:
+                    state[st.targets[0].id] = state[v.id]
+                elif isinstance(const(v), int):
+                    state[st.targets[0].id] = const(v)
+                else:
+                    return None
+            elif isinstance(st, ast.AugAssign) and isinstance(st.target, ast.Name) and st.target.id in names and isinstance(const(st.value), int):
+                state[st.target.id] += const(st.value) * (1 if isinstance(st.op, ast.Add) else -1 if isinstance(st.op, ast.Sub) else 0)
+        it += 1
+    if it >= 8:
+        return None
+    return arr, pairs, "index state (%s, %s)" % tuple(order)
 
 
 def _early_exits(rep, rule, f, loop, pm, key):
